@@ -395,6 +395,8 @@ type dpeer struct {
 	id   discover.NodeID
 	conn *net.UDPConn
 	port int
+	rng  *rand.Rand
+	cls  int
 
 	mu        sync.Mutex
 	pongTok   map[string]bool // reply tokens of the pongs the node sent here
@@ -424,6 +426,8 @@ func (w *dworld) newPeerNear(name string, role int, near int) *dpeer {
 		panic(err)
 	}
 	p := &dpeer{w: w, name: name, role: role, key: dvKey(w.rng), conn: c, port: c.LocalAddr().(*net.UDPAddr).Port, pongTok: map[string]bool{}}
+	p.rng = rand.New(rand.NewSource(w.rng.Int63())) // for the peer's own goroutine (w.rng belongs to the session's goroutine)
+	p.cls = w.rng.Intn(27)
 	p.id = discover.PubkeyID(&p.key.PublicKey)
 	for near >= 0 && int(crypto.Keccak256(p.id[:])[0]) != near {
 		p.key = dvKey(w.rng)
@@ -634,22 +638,23 @@ func (p *dpeer) hostilePong(mode int, tok []byte) {
 	case pongEmptyTok:
 		pk = append(pk, dvEncode(p.key, dvPong, []interface{}{to, []byte{}, exp}))
 	case pongShortTok:
-		pk = append(pk, dvEncode(p.key, dvPong, []interface{}{to, tok[:1+w.rng.Intn(31)], exp}))
+		pk = append(pk, dvEncode(p.key, dvPong, []interface{}{to, tok[:1+p.rng.Intn(31)], exp}))
 	case pongLongTok:
-		pk = append(pk, dvEncode(p.key, dvPong, []interface{}{to, bytes.Repeat(tok, 1+w.rng.Intn(30)), exp}))
+		pk = append(pk, dvEncode(p.key, dvPong, []interface{}{to, bytes.Repeat(tok, 1+p.rng.Intn(30)), exp}))
 	case pongRandomTok:
 		r := make([]byte, 32)
-		w.rng.Read(r)
+		p.rng.Read(r)
 		pk = append(pk, dvEncode(p.key, dvPong, []interface{}{to, r, exp}))
 	case pongExpired:
 		pk = append(pk, dvEncode(p.key, dvPong, []interface{}{to, tok, dvNow() - 5}))
 	case pongOtherKey:
-		pk = append(pk, dvEncode(dvKey(w.rng), dvPong, []interface{}{to, tok, exp}))
+		pk = append(pk, dvEncode(dvKey(p.rng), dvPong, []interface{}{to, tok, exp}))
 	case pongTwice:
 		pk = append(pk, p.goodPong(tok), p.goodPong(tok))
 	case pongHostileEP:
-		ip, _ := w.ipClass(w.nextClass())
-		pk = append(pk, dvEncode(p.key, dvPong, []interface{}{rawEP{ip, uint64(w.rng.Intn(3)) * 32767, 0}.val(), tok, exp}))
+		p.cls++
+		ip, _ := w.ipClassR(p.rng, p.cls)
+		pk = append(pk, dvEncode(p.key, dvPong, []interface{}{rawEP{ip, uint64(p.rng.Intn(3)) * 32767, 0}.val(), tok, exp}))
 	default:
 		pk = append(pk, p.goodPong(tok))
 	}
@@ -665,8 +670,8 @@ var dvIPLens = []int{0, 1, 3, 4, 5, 15, 16, 17, 255}
 
 // ipClass: an address of every length and every special kind. Addresses that may be put on a wire are documentation
 // ranges (192.0.2.0/24, 198.51.100.0/24, 203.0.113.0/24, 2001:db8::/32) - and the socket wrapper drops them anyway.
-func (w *dworld) ipClass(c int) ([]byte, string) {
-	r := w.rng
+func (w *dworld) ipClass(c int) ([]byte, string) { return w.ipClassR(w.rng, c) }
+func (w *dworld) ipClassR(r *rand.Rand, c int) ([]byte, string) {
 	rb := func(n int) []byte { b := make([]byte, n); r.Read(b); return b }
 	const K = 27
 	switch c % K {
@@ -1214,7 +1219,7 @@ func (w *dworld) phaseUnsolicited(peak *int) {
 			}
 		}
 		sender.mu.Lock()
-		nd0, pg0 := sender.neighNd, sender.pings
+		nd0, pg0, np0 := sender.neighNd, sender.pings, sender.neighPk
 		sender.mu.Unlock()
 		m0 := w.vc.mark()
 		now0 := dvNow()
@@ -1224,8 +1229,11 @@ func (w *dworld) phaseUnsolicited(peak *int) {
 		now1 := dvNow()
 		recs := w.vc.since(m0)
 		pongs, _, neigh, other := dvTo(recs, sender.port)
+		// (the sender's reader is a goroutine of its own: let it see the datagrams the node has written)
+		w.waitFor(2*time.Second, func() bool { sender.mu.Lock(); defer sender.mu.Unlock(); return sender.neighPk-np0 >= neigh })
 		sender.mu.Lock()
 		nodes := sender.neighNd - nd0
+		seenAll := sender.neighPk-np0 == neigh
 		sender.mu.Unlock()
 		w.count("discv:act:" + []string{"", "ping", "pong", "findnode", "neighbors"}[kind])
 		if g := w.victimGoroutines(); g > *peak {
@@ -1256,7 +1264,7 @@ func (w *dworld) phaseUnsolicited(peak *int) {
 		// (the verdict on an expiration within seconds of the clock depends on the moment the node looked at it)
 		near := exp+3 >= now0 && exp <= now1+3
 		total1, _, _, _, _ := discover.VerifTableStats(w.tab)
-		if !near && w.lag.worst() < 500*time.Millisecond && (total1 == total || total >= dvBucket && total1 >= dvBucket) {
+		if !near && seenAll && w.lag.worst() < 500*time.Millisecond && (total1 == total || total >= dvBucket && total1 >= dvBucket) {
 			w.tcase("disc_handle", Tup(I64(int64(kind)), decodes, U64(exp), U64(now0), U64(version), known, I64(int64(closest))),
 				Tup(I64(int64(pongs)), I64(int64(neigh)), I64(int64(nodes))), dvTag(kind, decodes, dvExpired(exp), version, known))
 		}
@@ -1319,6 +1327,8 @@ type dvPlan struct {
 	pk     [][]byte
 	delays []time.Duration
 	clean  bool // every datagram intact, in time, from the asked identity, good expiration, below the limit
+	exp    uint64
+	expPl  bool // intact and in time, but with an expiration of a hostile class
 }
 
 func (w *dworld) makePlan(p *dpeer, c int, dead *int) *dvPlan {
@@ -1380,6 +1390,7 @@ func (w *dworld) makePlan(p *dpeer, c int, dead *int) *dvPlan {
 		pl.name = "expiration-" + el
 		pl.groups = [][]rawNode{group(8), group(8)}
 		pl.clean = false
+		pl.exp, pl.expPl = exp, true
 	case 9:
 		pl.name = "mutated-then-two"
 		pl.groups = [][]rawNode{group(6), group(8), group(8)}
@@ -1472,6 +1483,7 @@ func (w *dworld) phaseLookups(peak *int) (hs []*dpeer) {
 		}
 		total0, _, _, _, _ := discover.VerifTableStats(w.tab)
 		m0 := w.vc.mark()
+		now0 := dvNow()
 		w.lag.reset()
 		var target discover.NodeID
 		for r.Read(target[:]); int(crypto.Keccak256(target[:])[0]) != near; {
@@ -1540,6 +1552,21 @@ func (w *dworld) phaseLookups(peak *int) (hs []*dpeer) {
 				continue
 			}
 			w.count("discv:plan-asked")
+			if pl.expPl && took+2*lagw <= 200*time.Millisecond && !(pl.exp+3 >= now0 && pl.exp <= dvNow()+3) && len(pl.groups) > 0 {
+				// a reply with a hostile expiration: handed to the callback iff not expired (model disc_reply; the
+				// expiration itself is compared through disc_handle)
+				probe, seen := false, false
+				for _, e := range pl.groups[0] {
+					nip := net.IP(e.IP)
+					if e.tie && e.UDP != 0 && !nip.IsMulticast() && !nip.IsUnspecified() {
+						probe = true
+						seen = seen || pinged[dvDest(e)]
+					}
+				}
+				if probe {
+					w.tcase("disc_reply", Tup(true, dvExpired(pl.exp), true), seen, "neighbors:"+pl.name)
+				}
+			}
 			if !pl.clean {
 				continue
 			}
